@@ -59,7 +59,19 @@ func init() {
 	w["c16_elem_write_unchecked"] = func() (string, error) {
 		vm := otto.New()
 		vm.Set("s", []int8{1, 2})
+		return script(vm, `try { s[0] = NaN; String(s[0]) } catch (e) { e.name }`)
+	}
+	w["c16_elem_write_negative_fraction"] = func() (string, error) {
+		vm := otto.New()
+		vm.Set("s", []int{1, 2})
 		return script(vm, `try { s[0] = -1.5; String(s[0]) } catch (e) { e.name }`)
+	}
+	w["c16_element_copies"] = func() (string, error) {
+		d := &bridge.Doc{Grid: [][]int8{{1}, {2, 3}}, SIn: []bridge.Inner{{N: 1}}}
+		vm := otto.New()
+		vm.Set("x", d)
+		vm.Set("same", func(p *bridge.Inner) bool { return p == &d.SIn[0] })
+		return script(vm, `x.Grid[1].length = 1; x.Grid[1].length + " " + same(x.SIn[0])`)
 	}
 	w["c16_elem_write_error"] = func() (string, error) {
 		vm := otto.New()
